@@ -364,7 +364,7 @@ const beyond32g = uint64(1<<35 + 64)
 func main() {
 	out := hx.Flags("C04", 200)
 	five := types.OffsetSize == 5
-	out.Rule = "per case two real volumes get the same phase-structured history (h1, Compact or Compact2 on the first volume, h2, CommitCompact on the first volume), 0-12 operations per phase over 3-4 keys x 2 cookies: writes (payload pat(tag<4, len in {0,1,3,8,17,40,300}), optional name/mime, needle TTL none/1m/1h/3d/5y, LastModified now/-2h/-10d/-400d/+2h/+10d or absent, AppendAtNs fresh/30 min old/TTL+1h old/5 days old) and deletes; volume TTL none/1m/1h/3d/137y/0m; then every key is read on both volumes; the first cases are the fixed witnesses of the known findings; with 5-byte offsets a fifth of the cases extend the .dat beyond 32 GiB (sparse) before or during the compaction and then touch a single key in h2; non-trivial = the never-compacted volume serves a non-empty blob for some key; distinct = canonical history with times relative to the generation instant"
+	out.Rule = "per case two real volumes get the same phase-structured history (h1, Compact or Compact2 on the first volume, h2, CommitCompact on the first volume), 0-12 operations per phase over 3-4 keys x 2 cookies: writes (payload pat(tag<4, len in {0,1,3,8,17,40,300}), optional name/mime, needle TTL none/1m/1h/3d/5y, LastModified now/-2h/-10d/-400d/+2h/+10d or absent, AppendAtNs fresh/30 min old/TTL+1h old/5 days old) and deletes; volume TTL none/1m/1h/3d/137y/0m; then every key is read on both volumes; the first cases are the fixed witnesses of the known findings; with 5-byte offsets a fifth of the cases extend the .dat beyond 32 GiB (sparse) before or during the compaction (index-based only when before); non-trivial = the never-compacted volume serves a non-empty blob for some key; distinct = canonical history with times relative to the generation instant"
 	dir, err := os.MkdirTemp("", "c04-vol")
 	hx.Must(err)
 	defer os.RemoveAll(dir)
@@ -400,8 +400,9 @@ func main() {
 			{kind: "witness-empty-h2", vt: noTTL, scan: false, keys: keys, h1: []ev{w(now, 1, 0, 3, ns, noTTL), w(now+1, 2, 1, 3, ns, noTTL)}, h2: []ev{w(now+2, 1, 0, 0, ns, noTTL)}},
 		}
 		if five {
-			// 3: a write beyond 32 GiB during the compaction is lost (fifth offset byte kept from the old entry)
-			wit = append(wit, plan{kind: "witness-fifth-byte", vt: noTTL, scan: false, keys: keys,
+			// repaired (was finding 3): a write beyond 32 GiB during the compaction used to be lost because
+			// makeupDiff kept the fifth offset byte of the old entry; must now read the same on both volumes
+			wit = append(wit, plan{kind: "repaired-fifth-byte", vt: noTTL, scan: false, keys: keys,
 				h1: []ev{w(now, 1, 0, 3, ns, noTTL)}, h2: []ev{{kind: kPad, off: beyond32g}, w(now+1, 2, 1, 3, ns, noTTL)}})
 		}
 		for _, p := range wit {
@@ -439,8 +440,7 @@ func main() {
 		case 0:
 			p.kind = "hole-h2"
 			p.h1 = genOps(r, n1, keys, now, p.vt, &seq)
-			one := []uint64{keys[r.Intn(nk)]}
-			h2 := genOps(r, r.Range(1, 4), one, now, p.vt, &seq)
+			h2 := genOps(r, r.Range(1, 8), keys, now, p.vt, &seq)
 			at := r.Intn(len(h2))
 			p.h2 = append(append(append([]ev{}, h2[:at]...), ev{kind: kPad, off: beyond32g}), h2[at:]...)
 		case 1:
@@ -449,8 +449,7 @@ func main() {
 			h1 := genOps(r, n1, keys, now, p.vt, &seq)
 			at := r.Intn(len(h1) + 1)
 			p.h1 = append(append(append([]ev{}, h1[:at]...), ev{kind: kPad, off: beyond32g}), h1[at:]...)
-			one := []uint64{keys[r.Intn(nk)]}
-			p.h2 = genOps(r, r.Range(0, 3), one, now, p.vt, &seq)
+			p.h2 = genOps(r, r.Range(0, 8), keys, now, p.vt, &seq)
 		default:
 			p.h1 = genOps(r, n1, keys, now, p.vt, &seq)
 			p.h2 = genOps(r, n2, keys, now, p.vt, &seq)
